@@ -18,4 +18,6 @@ def run(ctx):
     c16.r_operand_access(ctx)
     pepsolve.r_primalflow(ctx)
     wrappers.r_lmienc(ctx)
+    wrappers.r_mainvars(ctx)
+    wrappers.r_trilorder(ctx)
     ctx.floor("decomposition consumers", ctx.analysed.get("decomposition consumers", 0), 4)
